@@ -49,6 +49,11 @@ EXPLANATION += (
     'parent-child link of every row (R-COVER, no early exit).'
 )
 
+EXPLANATION += (
+    ' Round 3: node tables are keyed by (level, label), memo keys are '
+    'complete, zipped lists are in lock-step (sa/rules/nodekeys.py).'
+)
+
 RULE_TEXT = (
     "one obligation per constructor path, per attribute-assignment site, "
     "per mutation candidate, per helper parameter, per accessor x caller, "
